@@ -294,4 +294,28 @@ theorem single_quoted_span_covers_quotes (pre v rest : Str) (hv : ∀ c ∈ v, i
     simp
   · simp only [List.length_append, List.length_cons]; omega
 
+open SaphyrModel.C04P in
+/-- **The span of a plain scalar on one line covers exactly its text — for every such line.** With the whole
+    input `pre` followed by what remains (a plain scalar line as in `C04.plain_scalar_line_token`) and the
+    scanner's index equal to the number of characters consumed: the characters of the input from the token's
+    start index up to its end index are exactly the scalar's text — no leading or trailing blank, nothing of
+    the line break —, the span lies on one line, and its columns differ by the length of the text. -/
+theorem plain_scalar_span_covers_text (pre v rest : Str) (hv : PlainLine v) (u : Sc) (hk : u.inp.kind = .str)
+    (hfl : u.flowLevel = 0) (hlw : u.leadingWhitespace = false) (hcap : 2 ≤ u.inp.cap)
+    (hrest : Ending rest u.indent) (hC : u.indent + 1 ≤ (u.mark.col : Int))
+    (hi : u.inp.iter = v ++ rest) (hidx : u.mark.index = pre.length)
+    (tok : Token) (u' : Sc) (h : scanPlainScalarBody u = .ok (tok, u')) :
+    ((pre ++ u.inp.iter).drop tok.span.start.index).take (tok.span.stop.index - tok.span.start.index) = v ∧
+    tok.ty = .scalar .plain v ∧
+    tok.span.stop.line = tok.span.start.line ∧ tok.span.stop.col = tok.span.start.col + v.length ∧
+    tok.span.start.index ≤ tok.span.stop.index ∧ tok.span.stop.index ≤ (pre ++ u.inp.iter).length := by
+  rcases C04.plain_scalar_line_token v rest hv u hk hfl hlw hcap hrest hC hi with ⟨p, hp⟩ | ⟨tok', w, e, h1, h2, h3, h4, h5, _⟩
+  · rw [hp] at h; cases h
+  rw [e] at h; cases h
+  rw [h2, h3, h4, h5, hidx, hi]
+  refine ⟨?_, h1, rfl, rfl, by omega, ?_⟩
+  · rw [show pre.length + v.length - pre.length = v.length by omega]
+    simp
+  · simp only [List.length_append]; omega
+
 end SaphyrModel.C12
